@@ -35,6 +35,7 @@ type Prog struct {
 	Toolchain string // `go version` of the go command that type-checked the tree
 	NFiles    int
 	NFuncs    int
+	Norm      *Normalized // what the inlining normalisation did (nil: not requested)
 
 	cg *CallGraph
 }
